@@ -22,10 +22,10 @@
 -/
 import TwigProofs.Lemmas.Fuel
 import TwigProofs.Lemmas.Scan
+import TwigModel.Codec
 namespace Twig
 
-open Fuel
-
+namespace Fuel
 /-- test helpers for the non-vacuity examples (not part of the model) -/
 def okAll {α} : R (α × List Token) → Bool
   | .ok (_, []) => true
@@ -36,6 +36,9 @@ def isOk {α} : R α → Bool
 def isFuel {α} : R α → Bool
   | .error .fuel => true
   | _ => false
+end Fuel
+
+open Fuel
 
 /-! ## 1. lexer, trim loops, scanners -/
 
@@ -181,5 +184,105 @@ example : isOk (parseTemplate (b ("{% extends 'base' %}{% block a %}{% for k, v 
   decide +kernel
 -- the fuel error is real for the template parser too
 example : isFuel (parseOuter 1 [tk TEXT (b "a"), tk TEXT (b "b"), tk EOF]) = true := by decide +kernel
+
+/-! ## 5. rendering: the fuel error is exactly (unbounded) template recursion
+
+`run E fuel` is the only function of `TwigModel.Render` that looks at the fuel; it hands
+`run E (fuel - 1)` to the body renderer as the transfer function `go`.  Everything else —
+expression evaluation with every built-in filter / function / test, loops, conditionals, set, apply — is
+structurally recursive and never produces `Err.fuel` by itself. -/
+
+/-- `EvaluateExpression` never reports the fuel error (for any expression, state, environment) -/
+theorem C05_eval_never_fuel (E : Env) (apply : Bool) (e : Expr) (st : St) :
+    evalX E apply e st ≠ .error .fuel := nf_evalX E apply e st
+
+/-- rendering a node list: a fuel error can only be a fuel error returned by a transfer (`go`) -/
+theorem C05_render_fuel_is_transfer (E : Env) (go : Go) (tpl : Bytes) (nodes : List Node) (st : St)
+    (h : renderNodes E go tpl nodes st = .error .fuel) : ∃ tr st', go tr st' = .error .fuel := by
+  apply Classical.byContradiction
+  intro hne
+  exact nf_renderNodes E go (fun tr st' hfu => hne ⟨tr, st', hfu⟩) tpl nodes st h
+
+/-- the same for the other two entry points of a transfer -/
+theorem C05_renderRoot_fuel_is_transfer (E : Env) (go : Go) (tpl : Bytes) (st : St)
+    (h : renderRoot E go tpl st = .error .fuel) : ∃ tr st', go tr st' = .error .fuel := by
+  apply Classical.byContradiction
+  intro hne
+  exact nf_renderRoot E go (fun tr st' hfu => hne ⟨tr, st', hfu⟩) tpl st h
+
+theorem C05_callMacro_fuel_is_transfer (E : Env) (go : Go) (tpl name : Bytes) (args : List Val) (st : St)
+    (h : callMacro E go tpl name args st = .error .fuel) : ∃ tr st', go tr st' = .error .fuel := by
+  apply Classical.byContradiction
+  intro hne
+  exact nf_callMacro E go (fun tr st' hfu => hne ⟨tr, st', hfu⟩) tpl name args st h
+
+/-- corollary: with a transfer function that never reports the fuel error, rendering never does -/
+theorem C05_render_no_fuel_of_go (E : Env) (go : Go) (hgo : ∀ tr st, go tr st ≠ .error .fuel)
+    (tpl : Bytes) (nodes : List Node) (st : St) : renderNodes E go tpl nodes st ≠ .error .fuel :=
+  nf_renderNodes E go hgo tpl nodes st
+
+/-- a fuel error of `run` with fuel `f + 1` is a fuel error of a nested transfer run with fuel `f`:
+    the fuel counts the nesting depth of transfers (include / extends / block / macro call / parent())
+    and nothing else -/
+theorem C05_render_fuel_is_recursion (E : Env) (f : Nat) (tr : Transfer) (st : St)
+    (h : run E (f + 1) tr st = .error .fuel) : ∃ tr' st', run E f tr' st' = .error .fuel :=
+  run_fuel_step E f tr st h
+
+/-- more fuel never changes a rendering result other than the fuel error -/
+theorem C05_render_fuel_mono (E : Env) {f f' : Nat} (h : f ≤ f') (tr : Transfer) (st : St)
+    (hne : run E f tr st ≠ .error .fuel) : run E f' tr st = run E f tr st := run_stable E h tr st hne
+
+/-- hence: if the transfers of a template set nest at most `d` deep (no transfer, in any state, runs
+    out of fuel `d`), rendering with any fuel `≥ d` never reports the fuel error and does not depend on
+    the fuel. -/
+theorem C05_render_bounded_depth (E : Env) (d : Nat) (hd : ∀ tr st, run E d tr st ≠ .error .fuel)
+    (f : Nat) (h : d ≤ f) (tr : Transfer) (st : St) :
+    run E f tr st ≠ .error .fuel ∧ run E f tr st = run E d tr st := by
+  have e := run_stable E h tr st (hd tr st)
+  exact ⟨by rw [e]; exact hd tr st, e⟩
+
+/-- `Engine.Render`: always a value or an error (the model is total), and the fuel error at the top
+    means some transfer, nested inside 199 others, was still not finished -/
+theorem C05_render_total (E : Env) (name : Bytes) (vars : List (Bytes × Val)) :
+    (∃ o, renderTop E name vars = .ok o) ∨ (∃ e, renderTop E name vars = .error e) := by
+  cases h : renderTop E name vars with
+  | ok o => exact .inl ⟨o, rfl⟩
+  | error e => exact .inr ⟨e, rfl⟩
+
+theorem C05_renderTop_fuel (E : Env) (name : Bytes) (vars : List (Bytes × Val))
+    (h : renderTop E name vars = .error .fuel) :
+    ∃ tr st, run E (defaultFuel - 1) tr st = .error .fuel := by
+  unfold renderTop at h
+  split at h
+  · cases h
+  · have h' : run E defaultFuel (.root name) { ctx := { vars := vars } } = .error .fuel := by
+      cases hr : run E defaultFuel (.root name) { ctx := { vars := vars } } with
+      | ok o => rw [hr] at h; cases h
+      | error e => rw [hr] at h; cases h; rfl
+    exact run_fuel_step E (defaultFuel - 1) _ _ h'
+
+-- non-vacuity: loops, conditionals, filters, a macro call (nesting depth 3) and an include render with fuel 3, not 2 …
+def Fuel.exEnv : Env := { tpls := [
+  (b "main", match parseTemplate (b ("{% macro m(x) %}<{{ x|upper }}>{% endmacro %}" ++
+      "{% for i in [1, 2, 3] %}{% if i > 1 %}{{ m(i) }}{% endif %}{% endfor %}{% include 'part' %}")) with
+    | .ok ns => ns | .error _ => []),
+  (b "part", match parseTemplate (b "{{ 'p'|length + 1 }}") with | .ok ns => ns | .error _ => []),
+  (b "loop", match parseTemplate (b "{% include 'loop' %}") with | .ok ns => ns | .error _ => [])] }
+example : (match run exEnv 3 (.root (b "main")) { ctx := {} } with
+    | .ok (o, _) => o == b "<2><3>2" | _ => false) = true := by decide +kernel
+example : isFuel (run exEnv 2 (.root (b "main")) { ctx := {} }) = true := by decide +kernel
+-- … and a template that includes itself unconditionally (excluded by the property) does hit the fuel error
+example : isFuel (renderTop exEnv (b "loop") []) = true := by decide +kernel
+example : isOk (renderTop exEnv (b "main") []) = true := by decide +kernel
+
+/-! ## 6. compiled-template decoder (proved by C16; restated here for the property's third clause) -/
+
+/-- decoding arbitrary bytes as a compiled template returns a value or an error (`Codec.decode` is a total
+    Lean function; allocation bounds and prefix rejection are C16's) -/
+theorem C05_decode_total (gob : Bytes → Option Codec.Compiled) (bs : Bytes) :
+    (∃ c, Codec.decode gob bs = .ok c) ∨ (∃ e, Codec.decode gob bs = .error e) := by
+  cases h : Codec.decode gob bs with
+  | ok c => exact .inl ⟨c, rfl⟩
+  | error e => exact .inr ⟨e, rfl⟩
 
 end Twig
